@@ -289,6 +289,11 @@ func (e *endpointManager) checkStatus() {
 			}
 
 			firstTime, needCheck := adp.checkActive()
+			if !firstTime && !adp.status && !adp.closed && e.inRotation(ep) {
+				// a refresh that read the status just before the endpoint was
+				// blocked has put it back: take it out again
+				firstTime = true
+			}
 			if !firstTime && !needCheck {
 				continue
 			}
@@ -318,6 +323,17 @@ func (e *endpointManager) checkStatus() {
 			}
 		}
 	}
+}
+
+func (e *endpointManager) inRotation(ep endpoint.Endpoint) bool {
+	e.epLock.Lock()
+	defer e.epLock.Unlock()
+	for i := range e.activeEp {
+		if e.activeEp[i].Key == ep.Key {
+			return true
+		}
+	}
+	return false
 }
 
 func (e *endpointManager) addAliveEp(ep endpoint.Endpoint) {
